@@ -10,8 +10,10 @@ PROPS="${*:-C03 C04 C05 C06 C07 C08 C09 C10 C11 C12 C13 C15 C16 C17}"
 HERE="$(cd "$(dirname "${BASH_SOURCE[0]}")" && pwd)"
 VERIF="$(cd "$HERE/../.." && pwd)"
 DIV="${RUNS_DIV:-4}"
-SIM="$WT/.verif-sim"
-OUT="$WT/.verif-out"
+# scratch build and output live OUTSIDE the worktree (sub-agents that work there must not see the simulator)
+SCR="/tmp/verif-scratch/$(basename "$WT")"
+SIM="$SCR/verif-sim"
+OUT="$SCR/verif-out"
 mkdir -p "$SIM" "$OUT/replays" "$OUT/evidence"
 rsync -a --delete --exclude target "${SIM_SRC:-$VERIF/sim}/" "$SIM/"
 sed -i "s#/repo/stun-rs#$WT/stun-rs#; s#/repo/stun-agent#$WT/stun-agent#" "$SIM/Cargo.toml"
